@@ -97,6 +97,149 @@ def monitor(sub, c, o, out, ex):
             sub.fail("loss:receive-blocked-forever:subchannel", ex)
 
 
+W_REAL_STREAM = """
+import os
+channel.send(os.getpid())
+sizes = %(sizes)r
+i = 0
+while %(endless)r or i < len(sizes):
+    channel.send((i, 'x' * sizes[i %% len(sizes)]))
+    i += 1
+channel.receive()                       # never answered: the process is killed while it waits here (or while it still writes)
+"""
+W_REAL_CB = """
+for x in %(items)r:
+    channel.send(x)
+channel.receive()
+"""
+
+
+def real_loss(ck, sub, tier, rng, replay=None):
+    """real processes: a worker behind a popen, a socket and a via= (ProxyIO) gateway gets SIGKILL at a generated moment -- idle
+    after k items, or in the middle of an endless burst of large items -- while several threads of the initiator are blocked in
+    receive() and waitclose() and a callback with endmarker is registered"""
+    import os
+    import signal
+    import threading
+    import time
+
+    import execnet
+    from props import xport as X
+
+    jobs = []
+    if replay:
+        if not (replay.get("signature") or "").startswith("loss:real"):
+            return
+        e = replay["example"]
+        jobs.append((e["transport"], e["sizes"], e["endless"], e["kill_after"], e["nrecv"], e["nwait"], e["cb_items"], e.get("delay", 0.0)))
+    else:
+        n = 18 if tier == "quick" else 300
+        for i in range(n):
+            sizes = [rng.choice([0, 1, 10, 1000, 70000, 300000]) for _ in range(rng.randint(1, 4))]
+            endless = rng.random() < 0.5
+            jobs.append((["popen", "socket", "via"][i % 3], sizes, endless, rng.randint(0, len(sizes)) if not endless else rng.randint(1, 6),
+                         rng.randint(1, 3), rng.randint(1, 2), list(range(rng.randint(0, 3))), rng.choice([0.0, 0.0, 0.003, 0.02])))
+    for transport, sizes, endless, kill_after, nrecv, nwait, cb_items, delay in jobs:
+        ex = {"transport": transport, "sizes": sizes, "endless": endless, "kill_after": kill_after, "nrecv": nrecv, "nwait": nwait, "cb_items": cb_items, "delay": delay}
+        ck.case(("real", repr(ex)), nontrivial=True)
+        ck.count("real_kill_" + transport)
+        group = execnet.Group()
+        try:
+            def mk():
+                if transport == "popen":
+                    return group.makegateway("popen//id=victim")
+                group.makegateway("popen//id=master")
+                if transport == "via":
+                    return group.makegateway("popen//via=master//id=victim")
+                return group.makegateway("socket//installvia=master//id=victim")
+
+            st, gw = X.with_timeout(mk, 40)
+            if st != "ok":
+                ck.broke("correspondence", "real-loss-gateway-does-not-start:" + transport, {**ex, "error": repr(gw)[:200]})
+                continue
+            results = []
+            lock = threading.Lock()
+
+            def note(*a):
+                with lock:
+                    results.append(a)
+
+            ch = gw.remote_exec(W_REAL_STREAM % {"sizes": sizes, "endless": endless})
+            pid = ch.receive(20)
+            idle = gw.remote_exec("channel.receive()")
+            cbch = gw.remote_exec(W_REAL_CB % {"items": cb_items})
+            cbgot = []
+            cbch.setcallback(cbgot.append, endmarker=("END",))
+            spare = gw.newchannel()
+
+            def receiver(i):
+                try:
+                    note("recv", i, "item", repr(idle.receive(12))[:40])
+                except BaseException as e:  # noqa
+                    note("recv", i, type(e).__name__)
+
+            def waiter(i):
+                try:
+                    idle.waitclose(12)
+                    note("wait", i, "returned")
+                except BaseException as e:  # noqa
+                    note("wait", i, type(e).__name__)
+
+            ths = [threading.Thread(target=receiver, args=(i,), daemon=True) for i in range(nrecv)] + [threading.Thread(target=waiter, args=(i,), daemon=True) for i in range(nwait)]
+            for t in ths:
+                t.start()
+            got, end = [], None
+            try:
+                for _ in range(kill_after):
+                    got.append(ch.receive(12))
+                if delay:
+                    time.sleep(delay)
+                os.kill(pid, signal.SIGKILL)
+                t_kill = time.time()
+                while 1:
+                    got.append(ch.receive(12))
+            except BaseException as e:  # noqa
+                end = type(e).__name__
+            for t in ths:
+                t.join(max(0.1, 14 - (time.time() - t_kill)) if "t_kill" in dir() else 14)
+            took = time.time() - t_kill if "t_kill" in dir() else None
+            ex["took"] = round(took or 0, 2)
+            ex["results"] = sorted(map(repr, results))
+            # the streamed items: complete, in order, nothing partial or corrupt; then EOFError
+            for j, it in enumerate(got):
+                if not (isinstance(it, tuple) and len(it) == 2 and it[0] == j and it[1] == "x" * sizes[j % len(sizes)]):
+                    sub.fail("loss:real:%s:item-corrupt-or-out-of-order" % transport, {**ex, "index": j, "item": repr(it)[:80]})
+                    break
+            if not endless and len(got) < kill_after:
+                sub.fail("loss:real:%s:arrived-items-lost" % transport, ex)
+            if end != "EOFError":
+                sub.fail("loss:real:%s:blocked-receive-ends-with-%s" % (transport, end), ex)
+            alive = [t for t in ths if t.is_alive()]
+            if alive:
+                sub.fail("loss:real:%s:%d-waiters-still-blocked-12s-after-the-kill" % (transport, len(alive)), ex)
+            for r in results:
+                if r[2] != "EOFError":
+                    sub.fail("loss:real:%s:blocked-%s-ends-with-%s" % (transport, "receive" if r[0] == "recv" else "waitclose", r[2]), ex)
+            deadline = time.time() + 10
+            while time.time() < deadline and (("END",) not in cbgot or gw.hasreceiver()):
+                time.sleep(0.02)
+            if cbgot != cb_items[:len(cbgot) - 1] + [("END",)]:
+                sub.fail("loss:real:%s:callback-endmarker-missing-or-not-last" % transport, {**ex, "callback_got": repr(cbgot)[:200]})
+            if gw.hasreceiver():
+                sub.fail("after-loss:real:%s:gateway-still-claims-a-receiver" % transport, ex)
+            for name, f in (("send", lambda: spare.send(1)), ("newchannel", lambda: gw.newchannel()), ("remote_exec", lambda: gw.remote_exec("pass")),
+                            ("later-receive", lambda: spare.receive(5)), ("later-waitclose", lambda: spare.waitclose(5))):
+                st, v = X.with_timeout(f, 20)
+                want = "EOFError" if name.startswith("later") else "OSError"
+                gotk = "accepted" if st == "ok" else ("blocks" if st == "timeout" else type(v).__name__)
+                if gotk != want and not (want == "OSError" and st == "exc" and isinstance(v, OSError)):
+                    sub.fail("after-loss:real:%s:%s-%s-instead-of-%s" % (transport, name, gotk, want), ex)
+        except Exception as e:  # noqa
+            ck.broke("correspondence", "real-loss-harness:" + type(e).__name__, {**ex, "error": repr(e)[:300]})
+        finally:
+            X.with_timeout(lambda: group.terminate(timeout=2), 30)
+
+
 def main(tier, seed, replay=None):
     from evh.common import Check
 
@@ -217,6 +360,7 @@ def main(tier, seed, replay=None):
                         fin = out["final"]
                         if out["w2i_total"] > k and not fin.get("hasreceiver") and (fin.get("channels_left") or fin.get("callbacks_left")):
                             sub.fail("after-loss:channel-tables-not-empty", {**exb, "final": fin})
+    real_loss(ck, sub, tier, rng, replay)
     try:
         from props import chan_model
 
@@ -225,4 +369,4 @@ def main(tier, seed, replay=None):
         pass
     ck.cov["traces_validated_against_impl"] = nruns
     ck.cov["cut_points"] = cuts_done
-    return ck.finish(rule="generated channel programs (1-2 conversations: worker produces / raises / consumes / passes sub-channels; consumers by receive, iteration, callbacks early/late/mid, two receivers, waitclose) on a real gateway pair, once over the real Popen2IO and once over the real SocketIO; the worker->initiator byte stream is cut at EVERY byte offset when it is short (<= 60 bytes quick, <= 400 thorough) and at all frame boundaries +0/+1/+8/+9/+10 plus random offsets otherwise; one random or PCT schedule per cut. distinct = (program, cut, transport, schedule prefix).")
+    return ck.finish(rule="generated channel programs (1-2 conversations: worker produces / raises / consumes / passes sub-channels; consumers by receive, iteration, callbacks early/late/mid, two receivers, waitclose) on a real gateway pair, once over the real Popen2IO and once over the real SocketIO; the worker->initiator byte stream is cut at EVERY byte offset when it is short (<= 60 bytes quick, <= 400 thorough) and at all frame boundaries +0/+1/+8/+9/+10 plus random offsets otherwise; one random or PCT schedule per cut; plus REAL processes: workers behind popen, socket and via= (ProxyIO) gateways get SIGKILL after k items or inside an endless burst of items up to 300 kB, with 1-3 threads blocked in receive(), 1-2 in waitclose() and a callback with endmarker: all must end with EOFError / the endmarker, the items received are a complete ordered prefix, afterwards send / newchannel / remote_exec raise OSError. distinct = (program, cut, transport, schedule prefix).")
